@@ -203,7 +203,23 @@ func applyLockOp(set map[string]string, op *lockOp) {
 	}
 }
 
-func computeLocks(fn *ssa.Function) *LockInfo {
+func computeLocks(fn *ssa.Function) *LockInfo { return computeLocksMode(fn, false) }
+
+// computeLocksMay: the locks that MAY be held (on some path) before each instruction: union at joins.
+// Used by the no-blocking-call rules: a call that can run with the mutex held on one path is enough.
+func computeLocksMay(fn *ssa.Function) *LockInfo { return computeLocksMode(fn, true) }
+
+func join(a, b map[string]string) map[string]string {
+	o := copySet(a)
+	for k, v := range b {
+		if w, ok := o[k]; !ok || (w == "R" && v == "W") {
+			o[k] = v
+		}
+	}
+	return o
+}
+
+func computeLocksMode(fn *ssa.Function, may bool) *LockInfo {
 	li := &LockInfo{Fn: fn, before: map[ssa.Instruction]map[string]string{}}
 	if len(fn.Blocks) == 0 {
 		return li
@@ -290,6 +306,8 @@ func computeLocks(fn *ssa.Function) *LockInfo {
 					if first {
 						cur = copySet(po)
 						first = false
+					} else if may {
+						cur = join(cur, po)
 					} else {
 						cur = meet(cur, po)
 					}
@@ -314,7 +332,11 @@ func computeLocks(fn *ssa.Function) *LockInfo {
 			continue
 		}
 		if cur, seen := blockIn[n.blk]; seen {
-			blockIn[n.blk] = meet(cur, s)
+			if may {
+				blockIn[n.blk] = join(cur, s)
+			} else {
+				blockIn[n.blk] = meet(cur, s)
+			}
 		} else {
 			blockIn[n.blk] = copySet(s)
 		}
